@@ -426,6 +426,11 @@ func (x *Exec) checkRegionAssignable(st *State, r Region, pos, callee string) {
 			alts = append(alts, Eq(a.Arr, r.Ref))
 			continue
 		}
+		if !r.IsElem && r.RootKey == "ghost" && !a.IsElem && a.RootKey != "ghost" && a.PathPref == "" {
+			// ghost state attached to an object the caller may overwrite entirely (one it allocated)
+			alts = append(alts, Eq(a.Ref, r.Ref))
+			continue
+		}
 		if a.IsElem != r.IsElem {
 			continue
 		}
